@@ -44,18 +44,24 @@ theorem lrun_spec {cfg : Cfg} {c : Cache} (h : CacheOK cfg c) (t : Tid) (op : LO
   | begin_ => simp [lrun, lstepSpec, lstep, hr, h]
   | end_ =>
     simp only [lrun, lstepSpec, lstep, hr, if_true]
-    cases ts.gc <;> exact ⟨rfl, h⟩
-  | new k root =>
+    cases ts.gc with
+    | none => exact ⟨rfl, h⟩
+    | some g => simp only []; split <;> exact ⟨rfl, h⟩
+  | new k root xdtor =>
     simp only [lrun, lstepSpec, lstep, hr, if_true]
     split
     · exact ⟨rfl, h⟩
     · cases ts.gc <;> exact ⟨rfl, h⟩
   | del o =>
     simp only [lrun, lstepSpec, lstep, hr, if_true]
-    cases ts.gc <;> exact ⟨rfl, h⟩
+    cases ts.gc with
+    | none => exact ⟨rfl, h⟩
+    | some g => simp only []; split <;> exact ⟨rfl, h⟩
   | collect st =>
     simp only [lrun, lstepSpec, lstep, hr, if_true]
-    cases ts.gc <;> exact ⟨rfl, h⟩
+    cases ts.gc with
+    | none => exact ⟨rfl, h⟩
+    | some g => simp only []; split <;> exact ⟨rfl, h⟩
   | churn n =>
     simp only [lrun, lstepSpec, lstep, hr, if_true]
     cases ts.gc <;> exact ⟨rfl, h⟩
@@ -510,14 +516,16 @@ theorem lrun_own (cfg : Cfg) (t : Tid) (c : Cache) (op : LOp) (ts : TS) (h : Own
     cases hg : ts.gc with
     | none => exact ⟨(by intro g h; cases h), hf⟩
     | some g =>
-      refine ⟨(by intro g' h; cases h), ?_⟩
-      intro o ho
-      simp only [List.mem_append] at ho
-      rcases ho with ho | ho
-      · exact hf o ho
-      · obtain ⟨e, he, rfl, _⟩ := (GC.sweep_sub g []).2 o ho
-        exact hr g hg e he
-  | new k root =>
+      have hfin : ∀ o ∈ ts.fin ++ (g.sweep []).2, o.owner = t := by
+        intro o ho
+        simp only [List.mem_append] at ho
+        rcases ho with ho | ho
+        · exact hf o ho
+        · obtain ⟨e, he, rfl, _⟩ := (GC.sweep_sub g []).2 o ho
+          exact hr g hg e he
+      simp only []
+      split <;> exact ⟨(by intro g' h; cases h), hfin⟩
+  | new k root xdtor =>
     simp only [lrun]
     split
     · exact ⟨hr, hf⟩
@@ -536,33 +544,40 @@ theorem lrun_own (cfg : Cfg) (t : Tid) (c : Cache) (op : LOp) (ts : TS) (h : Own
     cases hg : ts.gc with
     | none => exact ⟨hr, hf⟩
     | some g =>
-      refine ⟨?_, ?_⟩
-      · intro g' h e he
+      have h1 : ∀ g', some (g.rem o).1 = some g' → ∀ e ∈ g'.reg, e.1.owner = t := by
+        intro g' h e he
         simp only [Option.some.injEq] at h
         subst h
         exact hr g hg e ((GC.rem_sub g o).1 e he)
-      · intro x hx
+      have h2 : ∀ x ∈ ts.fin ++ (g.rem o).2, x.owner = t := by
+        intro x hx
         simp only [List.mem_append] at hx
         rcases hx with hx | hx
         · exact hf x hx
         · obtain ⟨e, he, rfl⟩ := (GC.rem_sub g o).2 x hx
           exact hr g hg e he
+      simp only []
+      split <;> exact ⟨h1, h2⟩
   | collect st =>
     simp only [lrun]
     cases hg : ts.gc with
     | none => exact ⟨hr, hf⟩
     | some g =>
-      refine ⟨?_, ?_⟩
-      · intro g' h e he
+      have h1 : ∀ g', some (g.sweep (ts.tls.map (·.2) ++ st.map (fun k => (⟨t, k⟩ : Obj)))).1 = some g' →
+          ∀ e ∈ g'.reg, e.1.owner = t := by
+        intro g' h e he
         simp only [Option.some.injEq] at h
         subst h
         exact hr g hg e ((GC.sweep_sub g _).1 e he)
-      · intro x hx
+      have h2 : ∀ x ∈ ts.fin ++ (g.sweep (ts.tls.map (·.2) ++ st.map (fun k => (⟨t, k⟩ : Obj)))).2, x.owner = t := by
+        intro x hx
         simp only [List.mem_append] at hx
         rcases hx with hx | hx
         · exact hf x hx
         · obtain ⟨e, he, rfl, _⟩ := (GC.sweep_sub g _).2 x hx
           exact hr g hg e he
+      simp only []
+      split <;> exact ⟨h1, h2⟩
   | churn n =>
     simp only [lrun]
     cases hg : ts.gc with
@@ -649,5 +664,209 @@ theorem run_rd_frozen (cfg : Cfg) (u : Tid) (s : List Ev) : ∀ g : G, (g.thr u)
     · have := ih (step cfg g e).1 (by rw [hs.1]; exact hd) eo hmem r he
       rw [hs.1] at this
       exact this
+
+
+/-! ### a running thread has an exception record, so destructors that use exceptions never crash the teardown -/
+
+/-- a running thread has its Exception record -/
+def Live (ts : TS) : Prop := ts.phase = .running → ts.exc ≠ none
+
+theorem caught_some (x : Exc) (e : Option Exn.St) (h : e ≠ none) : caught x e ≠ none := by
+  cases e with
+  | none => exact absurd rfl h
+  | some s => simp [caught]
+
+theorem runDtors_some (xd : List Nat) (dead : List Obj) (s : Exn.St) :
+    ∃ e', runDtors xd dead (some s) = some e' ∧ e' ≠ none := by
+  unfold runDtors
+  split
+  · exact ⟨_, rfl, by simp [caught]⟩
+  · exact ⟨_, rfl, by simp⟩
+
+theorem lrun_live_nocrash (cfg : Cfg) (hgf : cfg.gcFirst = true) (t : Tid) (c : Cache) (op : LOp) (ts : TS)
+    (hr : ts.phase = .running) (h : ts.exc ≠ none) :
+    Live (lrun cfg t c op ts).1 ∧ (lrun cfg t c op ts).2.2 ≠ .crash := by
+  obtain ⟨s, hs⟩ : ∃ s, ts.exc = some s := by
+    cases he : ts.exc with
+    | none => exact absurd he h
+    | some s => exact ⟨s, rfl⟩
+  have hl : Live ts := fun _ => h
+  cases op with
+  | begin_ => exact ⟨hl, by simp [lrun]⟩
+  | end_ =>
+    simp only [lrun]
+    cases ts.gc with
+    | none => exact ⟨by intro hp; simp at hp, by simp⟩
+    | some g =>
+      simp only [hgf, if_true, hs]
+      obtain ⟨e', he', _⟩ := runDtors_some ts.xd (g.sweep []).2 s
+      rw [he']
+      exact ⟨by intro hp; simp at hp, by simp⟩
+  | new k root xdtor =>
+    simp only [lrun]
+    split
+    · exact ⟨hl, by simp⟩
+    · cases ts.gc with
+      | none => exact ⟨hl, by simp⟩
+      | some g => exact ⟨fun _ => h, by simp⟩
+  | del o =>
+    simp only [lrun]
+    cases ts.gc with
+    | none => exact ⟨hl, by simp⟩
+    | some g =>
+      simp only [hs]
+      obtain ⟨e', he', hne⟩ := runDtors_some ts.xd (g.rem o).2 s
+      rw [he']
+      exact ⟨fun _ => hne, by simp⟩
+  | collect st =>
+    simp only [lrun]
+    cases ts.gc with
+    | none => exact ⟨hl, by simp⟩
+    | some g =>
+      simp only [hs]
+      obtain ⟨e', he', hne⟩ := runDtors_some ts.xd (g.sweep (ts.tls.map (·.2) ++ st.map (fun k => (⟨t, k⟩ : Obj)))).2 s
+      rw [he']
+      exact ⟨fun _ => hne, by simp⟩
+  | churn n =>
+    simp only [lrun]
+    cases ts.gc with
+    | none => exact ⟨hl, by simp⟩
+    | some g => exact ⟨fun _ => h, by simp⟩
+  | tset key o => exact ⟨fun _ => h, by simp [lrun]⟩
+  | tget key =>
+    simp only [lrun]
+    split
+    · exact ⟨hl, by simp⟩
+    · exact ⟨fun _ => caught_some _ _ h, by simp⟩
+  | tmem key => exact ⟨hl, by simp [lrun]⟩
+  | trem key =>
+    simp only [lrun]
+    split
+    · exact ⟨fun _ => h, by simp⟩
+    · exact ⟨fun _ => caught_some _ _ h, by simp⟩
+  | exn p => simp only [lrun, hs]; exact ⟨fun _ => by simp, by simp⟩
+  | lookup ty cls => exact ⟨hl, by simp [lrun]⟩
+  | pub v => exact ⟨fun _ => h, by simp [lrun]⟩
+  | work a b c' => exact ⟨hl, by simp [lrun]⟩
+  | perr f e =>
+    simp only [lrun]
+    cases f <;> simp only [] <;> split <;>
+      first | exact ⟨fun _ => caught_some _ _ h, by simp⟩ | exact ⟨hl, by simp⟩
+
+theorem lstep_live_nocrash (cfg : Cfg) (hgf : cfg.gcFirst = true) (t : Tid) (c : Cache) (op : LOp) (ts : TS)
+    (h : Live ts) : Live (lstep cfg t c op ts).1 ∧ (lstep cfg t c op ts).2.2 ≠ .crash := by
+  by_cases hr : ts.phase = .running
+  · have := lrun_live_nocrash cfg hgf t c op ts hr (h hr)
+    cases op <;> first
+      | (simp only [lstep, hr, if_true]; exact this)
+      | (simp [lstep, hr]; exact h)
+  · cases op <;> first
+      | (simp only [lstep, hr, if_false]; exact ⟨h, by simp⟩)
+      | (simp only [lstep]; split
+         · exact ⟨fun _ => by simp, by simp⟩
+         · exact ⟨h, by simp⟩)
+
+theorem step_live_nocrash (cfg : Cfg) (hgf : cfg.gcFirst = true) (g : G) (e : Ev) (h : ∀ t, Live (g.thr t)) :
+    (∀ t, Live ((step cfg g e).1.thr t)) ∧ (step cfg g e).2 ≠ .crash := by
+  cases e with
+  | loc t op =>
+    rw [step_loc]
+    have hl := lstep_live_nocrash cfg hgf t g.cache op (g.thr t) (h t)
+    refine ⟨?_, hl.2⟩
+    intro u
+    by_cases hut : u = t
+    · subst hut; simp only [upd_same]; exact hl.1
+    · simp only [upd_other _ _ _ _ hut]; exact h u
+  | spawn t v =>
+    rcases step_spawn cfg g t v with ⟨ho, _, hg⟩ | ⟨_, hg⟩
+    · rw [hg, ho]
+      refine ⟨?_, by simp⟩
+      intro u
+      by_cases huv : u = v
+      · subst huv; simp only [upd_same]; intro hp; simp at hp
+      · simp only [upd_other _ _ _ _ huv]; exact h u
+    · rw [hg]
+      refine ⟨h, ?_⟩
+      simp only [step]
+      split
+      · simp
+      · split <;> simp
+  | join t w =>
+    rw [(step_sync_frame cfg g (.join t w) (by intros; simp) (by intros; simp)).1]
+    refine ⟨h, ?_⟩
+    simp only [step]
+    split
+    · simp
+    · split
+      · simp
+      · split <;> simp
+      · simp
+  | lock t m =>
+    rw [(step_sync_frame cfg g (.lock t m) (by intros; simp) (by intros; simp)).1]
+    refine ⟨h, ?_⟩
+    simp only [step]; split; simp; split <;> simp
+  | trylock t m =>
+    rw [(step_sync_frame cfg g (.trylock t m) (by intros; simp) (by intros; simp)).1]
+    refine ⟨h, ?_⟩
+    simp only [step]; split; simp; split <;> simp
+  | unlock t m =>
+    rw [(step_sync_frame cfg g (.unlock t m) (by intros; simp) (by intros; simp)).1]
+    refine ⟨h, ?_⟩
+    simp only [step]; split; simp; split <;> simp
+  | winc t m c =>
+    rw [(step_sync_frame cfg g (.winc t m c) (by intros; simp) (by intros; simp)).1]
+    refine ⟨h, ?_⟩
+    simp only [step]; split; simp; split <;> simp
+  | ld t c =>
+    rw [(step_sync_frame cfg g (.ld t c) (by intros; simp) (by intros; simp)).1]
+    refine ⟨h, ?_⟩
+    simp only [step]; split <;> simp
+  | st t c =>
+    rw [(step_sync_frame cfg g (.st t c) (by intros; simp) (by intros; simp)).1]
+    refine ⟨h, ?_⟩
+    simp only [step]; split <;> simp
+  | rd t w =>
+    rw [(step_sync_frame cfg g (.rd t w) (by intros; simp) (by intros; simp)).1]
+    refine ⟨h, ?_⟩
+    simp only [step]; split <;> simp
+
+theorem run_nocrash (cfg : Cfg) (hgf : cfg.gcFirst = true) (s : List Ev) : ∀ g : G, (∀ t, Live (g.thr t)) →
+    ∀ eo ∈ (run cfg s g).2, eo.2 ≠ .crash := by
+  induction s with
+  | nil => intro g _ eo h; cases h
+  | cons e s ih =>
+    intro g h eo hmem
+    have hs := step_live_nocrash cfg hgf g e h
+    rw [run_cons] at hmem
+    rcases List.mem_cons.mp hmem with rfl | hmem
+    · exact hs.2
+    · exact ih _ hs.1 eo hmem
+
+theorem live_init : ∀ t, Live (G.init.thr t) := by
+  intro t
+  simp only [G.init]
+  split
+  · intro _; simp [TS.main]
+  · intro hp; simp [TS.unborn] at hp
+
+/-! ### reading the error-translation tables extracted from the source (CelloGen.Thr) -/
+
+def Errno.name : Errno → String
+  | .zero => "0" | .einval => "EINVAL" | .edeadlk => "EDEADLK" | .ebusy => "EBUSY" | .eperm => "EPERM"
+  | .esrch => "ESRCH" | .eagain => "EAGAIN"
+
+def excOfName : String → Option Exc
+  | "ValueError" => some .valueError | "ResourceError" => some .resourceError | "KeyError" => some .keyError
+  | "OutOfMemoryError" => some .outOfMemoryError | "BusyError" => some .busyError | _ => none
+
+/-- what a table `[(errno, exception)]` extracted from the source does with error code `e` -/
+def tableTr (tab : List (String × String)) (e : Errno) : Option Exc := (tab.lookup e.name).bind excOfName
+
+def tableTry (tab : List (String × String)) (dflt : String) (e : Errno) : Option (Except Exc Bool) :=
+  match tab.lookup e.name with
+  | some "false" => some (.ok false)
+  | some "true" => some (.ok true)
+  | some x => (excOfName x).map .error
+  | none => if dflt = "true" then some (.ok true) else if dflt = "false" then some (.ok false) else none
 
 end Cello.Thr
